@@ -1260,6 +1260,258 @@ example : ∃ e ∈ loadRaw true typNum typDoc, e.key = 7 ∧ e.keyOk = true ∧
 example : idxOfRaw (typCfg false) typNum (fun c => if c = 1 then some typDoc else none) 1 = none := by
   decide
 
+/-! ## Fifth deepening: failing file-system calls, simultaneous refreshes -/
+
+/-- **fs_fault_keeps_cache_file.** The download may be perfectly healthy: when the file system
+fails — the temporary file cannot be created, a `Write` into it stores only a part and fails (full
+disk, quota, `EFBIG`), or `Sync` / `Close` / `rename(2)` inside `CloseAtomicallyReplace` fails —
+then after ANY prefix of the resulting step sequence (so also for a process killed on the way) the
+cache path holds exactly what it held before. -/
+theorem fs_fault_keeps_cache_file {α : Type} (fs : Fs α) (chunks : List (List α)) (ok : Bool)
+    (f : FsFault) (hf : f = .createFails ∨ (∃ i j, f = .writeFails i j) ∨ f = .replaceFails)
+    (n : Nat) :
+    (fsExec fs ((fsTraceF chunks ok f).take n)).path = fs.path := by
+  have hno : FsStep.rename ∉ fsTraceF chunks ok f := by
+    rcases hf with h | ⟨i, j, h⟩ | h <;> subst h
+    · simp [fsTraceF]
+    · simp only [fsTraceF, List.mem_cons, List.mem_append, reduceCtorEq, false_or, or_false,
+        List.not_mem_nil]
+      intro hm
+      rcases List.mem_map.mp hm with ⟨c, _, hc⟩
+      cases hc
+    · cases ok <;> simp [fsTraceF]
+  have hs := RenSafe_of_no_rename ((fsTraceF chunks ok f).take n) fs.tmp
+    (fun hm => hno (List.mem_of_mem_take hm))
+  rcases fs_safe _ _ fs hs with h | ⟨x, hx, _⟩
+  · exact h
+  · exact hx.elim
+
+/-- **disk_complete_under_fs_faults.** `disk_always_complete` for every behaviour of the file
+system: whatever fails and wherever the process is killed, the cache path holds what it held, or —
+only when the download succeeded — the complete new document. -/
+theorem disk_complete_under_fs_faults {α : Type} (fs : Fs α) (chunks : List (List α)) (ok : Bool)
+    (f : FsFault) (n : Nat) :
+    (fsExec fs ((fsTraceF chunks ok f).take n)).path = fs.path ∨
+    (ok = true ∧ (fsExec fs ((fsTraceF chunks ok f).take n)).path = some chunks.flatten) := by
+  have hs := RenSafe_prefix _ fs.tmp ((fsTraceF chunks ok f).take n) ((fsTraceF chunks ok f).drop n)
+    (by rw [List.take_append_drop]; exact fsTraceF_safe chunks ok f fs.tmp)
+  rcases fs_safe _ _ fs hs with h | ⟨x, ⟨hok, hx⟩, h⟩
+  · exact Or.inl h
+  · exact Or.inr ⟨hok, by rw [h, hx]⟩
+
+/-- **concurrent_writers_disk_complete.** Any number of `refreshFromURL` calls for the same cache
+path at the same time (the periodic worker and the debug API; writer `w` receives the chunks
+`chunks w`, its download ends with the verdict `ok w`, its file system calls fail as `fault w`
+says), every one with a temporary file of its own, under ANY schedule and cut off at ANY point
+(`tr` is a schedule whose projection to each writer is a prefix of that writer's step sequence):
+the cache path holds what it held before, or the complete document of a writer whose download
+succeeded — never a mixture, never a part. -/
+theorem concurrent_writers_disk_complete {α : Type} (fs : MFs α) (chunks : Nat → List (List α))
+    (ok : Nat → Bool) (fault : Nat → FsFault) (tr : List (Nat × FsStep α))
+    (hproj : ∀ w, proj w tr <+: fsTraceF (chunks w) (ok w) (fault w)) :
+    (mfsExec fs tr).path = fs.path ∨
+    ∃ w, ok w = true ∧ (mfsExec fs tr).path = some (chunks w).flatten := by
+  have hs : ∀ w, RenSafe (fun x => ∃ v, ok v = true ∧ x = (chunks v).flatten) (fs.tmp w) (proj w tr) := by
+    intro w
+    obtain ⟨q, hq⟩ := hproj w
+    apply RenSafe_mono (fun x => ok w = true ∧ x = (chunks w).flatten)
+    · intro x hx; exact ⟨w, hx⟩
+    · apply RenSafe_prefix _ _ _ q
+      rw [hq]
+      exact fsTraceF_safe (chunks w) (ok w) (fault w) (fs.tmp w)
+  rcases mfs_safe _ tr fs hs with h | ⟨x, ⟨v, hv, hx⟩, h⟩
+  · exact Or.inl h
+  · exact Or.inr ⟨v, hv, by rw [h, hx]⟩
+
+/-- **concurrent_kill_point_file.** The same with the branch of every writer tied to what
+`refreshFromURL` decided about its response: the cache path holds what it held or the bytes of a
+document that a server OFFERED completely to one of the writers. -/
+theorem concurrent_kill_point_file {α : Type} (E : Env) (max : Nat) (r : Nat → Resp)
+    (bytes : Nat → List α) (fs : MFs α) (chunks : Nat → List (List α)) (fault : Nat → FsFault)
+    (tr : List (Nat × FsStep α))
+    (hch : ∀ w c, fromURL E max (r w) = some c → (chunks w).flatten = bytes c)
+    (hproj : ∀ w, proj w tr <+: fsTraceF (chunks w) (fromURL E max (r w)).isSome (fault w)) :
+    (mfsExec fs tr).path = fs.path ∨
+    ∃ w c, Offers E max (r w) c ∧ (mfsExec fs tr).path = some (bytes c) := by
+  rcases concurrent_writers_disk_complete fs chunks (fun w => (fromURL E max (r w)).isSome) fault tr hproj
+    with h | ⟨w, hok, h⟩
+  · exact Or.inl h
+  · cases hu : fromURL E max (r w) with
+    | none => simp [hu] at hok
+    | some c =>
+      exact Or.inr ⟨w, c, fromURL_some E max (r w) c hu, by rw [h, hch w c hu]⟩
+
+/-- Two writers, interleaved; the second to rename wins, with its complete document. -/
+def twoWriters : List (Nat × FsStep Nat) :=
+  [(0, .createTemp), (1, .createTemp), (0, .write [1]), (1, .write [3]), (0, .write [2]),
+   (1, .write [4]), (1, .rename), (0, .rename), (1, .chtimes)]
+
+example : ∀ w, proj w twoWriters <+:
+    fsTraceF ((fun w => if w = 0 then [[1], [2]] else if w = 1 then [[3], [4]] else []) w)
+      ((fun w => decide (w ≤ 1)) w) ((fun _ => FsFault.none) w) := by
+  intro w
+  match w with
+  | 0 => exact ⟨[.chtimes], rfl⟩
+  | 1 => exact ⟨[], rfl⟩
+  | (n + 2) => exact ⟨_, by simp [proj, twoWriters]; rfl⟩
+
+example : (mfsExec ⟨some [9], fun _ => none⟩ twoWriters).path = some [1, 2] := by decide
+example : (mfsExec ⟨some [9], fun _ => none⟩ (twoWriters.take 7)).path = some [3, 4] := by decide
+example : (mfsExec ⟨some [9], fun _ => none⟩ (twoWriters.take 6)).path = some [9] := by decide
+
+/-- **shared_temp_name_mixes_documents_counterexample.** Why the temporary file must be the
+writer's own (`renameio.TempFile`: `O_EXCL`, random name): were it a fixed name next to the cache
+path, two simultaneous refreshes would write into the same file — modelled by giving both the
+writer number 0 — and the cache file would end up as a mixture of the two documents `[1, 2]` and
+`[3, 4]`, equal to neither and not what it held before. -/
+theorem shared_temp_name_mixes_documents_counterexample :
+    let tr : List (Nat × FsStep Nat) :=
+      [(0, .createTemp), (0, .write [1]), (0, .createTemp), (0, .write [3]), (0, .write [2]), (0, .rename)]
+    (mfsExec ⟨some [9], fun _ => none⟩ tr).path = some [3, 2] ∧
+    ¬ ((mfsExec ⟨some [9], fun _ => none⟩ tr).path = some [9] ∨
+       (mfsExec ⟨some [9], fun _ => none⟩ tr).path = some [1, 2] ∨
+       (mfsExec ⟨some [9], fun _ => none⟩ tr).path = some [3, 4]) := by
+  decide
+
+example : (fsExec ⟨some [9], none⟩ ((fsTraceF [[1, 2], [3]] true (.writeFails 1 0)).take 3)).tmp = some [1, 2] := by decide
+example : (fsExec (α := Nat) ⟨some [9], none⟩ (fsTraceF [[1, 2], [3]] true (.writeFails 1 0))) = ⟨some [9], none⟩ := rfl
+example : (fsExec (α := Nat) ⟨some [9], none⟩ (fsTraceF [[1, 2], [3]] true .replaceFails)) = ⟨some [9], some [1, 2, 3]⟩ := rfl
+
+/-! ## Fifth deepening: all histories of whole rounds (with the safe-search filters) -/
+
+/-- A history of whole rounds (`Default.refresh` with the safe-search filters). -/
+def runFull (E : Env) (cfg : Cfg) (p : St × SSt) (rs : List (Round × SRound)) : St × SSt :=
+  rs.foldl (fun p r => (refreshFull E cfg p.1 p.2 r.1 r.2).1) p
+
+/-- The documents the two safe-search filters show: served or lying in their cache files. -/
+def SsVisible (ss : SSt) (c : Nat) : Prop :=
+  ss.gen.mem = some c ∨ ss.gen.disk = some c ∨ ss.yt.mem = some c ∨ ss.yt.disk = some c
+
+/-- A safe-search server offered `c` completely in the round. -/
+def SsOfferedIn (E : Env) (SR : SRound) (c : Nat) : Prop :=
+  Offers E SR.max SR.genResp c ∨ Offers E SR.max SR.ytResp c
+
+theorem rl_visible_step (E : Env) (max : Nat) (a : Bool) (s : HSt) (f : Bool) (r : Resp) (c : Nat)
+    (h : (refreshRL E max a s f r).1.mem = some c ∨ (refreshRL E max a s f r).1.disk = some c) :
+    (s.mem = some c ∨ s.disk = some c) ∨ Offers E max r c := by
+  have ho := ss_old_or_new E max a s f r
+  rcases h with h | h
+  · rcases ho.1 with h1 | ⟨d, h1, h2⟩
+    · rw [h1] at h; exact Or.inl (Or.inl h)
+    · rw [h1] at h; cases h
+      rcases h2 with h2 | h2
+      · exact Or.inl (Or.inr h2)
+      · exact Or.inr h2
+  · rcases ho.2 with h1 | ⟨d, h1, h2⟩
+    · rw [h1] at h; exact Or.inl (Or.inr h)
+    · rw [h1] at h; cases h; exact Or.inr h2
+
+theorem ss_visible_step (E : Env) (SR : SRound) (a : Bool) (ss : SSt) (c : Nat)
+    (h : SsVisible (ssPart E SR a ss).1 c) : SsVisible ss c ∨ SsOfferedIn E SR c := by
+  unfold ssPart at h
+  have hg : ∀ g : HSt × Bool, g = (if SR.genOn then refreshRL E SR.max a ss.gen SR.genFresh SR.genResp
+      else (ss.gen, true)) → (g.1.mem = some c ∨ g.1.disk = some c) →
+      (ss.gen.mem = some c ∨ ss.gen.disk = some c) ∨ Offers E SR.max SR.genResp c := by
+    intro g hg hv
+    by_cases hon : SR.genOn = true
+    · rw [if_pos hon] at hg; subst hg
+      exact rl_visible_step E SR.max a ss.gen SR.genFresh SR.genResp c hv
+    · rw [if_neg hon] at hg; subst hg; exact Or.inl hv
+  have hy : ∀ y : HSt × Bool, y = (if SR.ytOn then refreshRL E SR.max a ss.yt SR.ytFresh SR.ytResp
+      else (ss.yt, true)) → (y.1.mem = some c ∨ y.1.disk = some c) →
+      (ss.yt.mem = some c ∨ ss.yt.disk = some c) ∨ Offers E SR.max SR.ytResp c := by
+    intro y hy hv
+    by_cases hon : SR.ytOn = true
+    · rw [if_pos hon] at hy; subst hy
+      exact rl_visible_step E SR.max a ss.yt SR.ytFresh SR.ytResp c hv
+    · rw [if_neg hon] at hy; subst hy; exact Or.inl hv
+  generalize hgd : (if SR.genOn = true then refreshRL E SR.max a ss.gen SR.genFresh SR.genResp
+      else (ss.gen, true)) = g at h
+  generalize hyd : (if SR.ytOn = true then refreshRL E SR.max a ss.yt SR.ytFresh SR.ytResp
+      else (ss.yt, true)) = y at h
+  have hG := hg g hgd.symm
+  have hY := hy y hyd.symm
+  by_cases hg2 : g.2 = true
+  · simp only [hg2, if_true] at h
+    rcases h with h | h | h | h
+    · rcases hG (Or.inl h) with (h1 | h1) | h1
+      · exact Or.inl (Or.inl h1)
+      · exact Or.inl (Or.inr (Or.inl h1))
+      · exact Or.inr (Or.inl h1)
+    · rcases hG (Or.inr h) with (h1 | h1) | h1
+      · exact Or.inl (Or.inl h1)
+      · exact Or.inl (Or.inr (Or.inl h1))
+      · exact Or.inr (Or.inl h1)
+    · rcases hY (Or.inl h) with (h1 | h1) | h1
+      · exact Or.inl (Or.inr (Or.inr (Or.inl h1)))
+      · exact Or.inl (Or.inr (Or.inr (Or.inr h1)))
+      · exact Or.inr (Or.inr h1)
+    · rcases hY (Or.inr h) with (h1 | h1) | h1
+      · exact Or.inl (Or.inr (Or.inr (Or.inl h1)))
+      · exact Or.inl (Or.inr (Or.inr (Or.inr h1)))
+      · exact Or.inr (Or.inr h1)
+  · simp only [hg2] at h
+    rcases h with h | h | h | h
+    · rcases hG (Or.inl h) with (h1 | h1) | h1
+      · exact Or.inl (Or.inl h1)
+      · exact Or.inl (Or.inr (Or.inl h1))
+      · exact Or.inr (Or.inl h1)
+    · rcases hG (Or.inr h) with (h1 | h1) | h1
+      · exact Or.inl (Or.inl h1)
+      · exact Or.inl (Or.inr (Or.inl h1))
+      · exact Or.inr (Or.inl h1)
+    · exact Or.inl (Or.inr (Or.inr (Or.inl h)))
+    · exact Or.inl (Or.inr (Or.inr (Or.inr h)))
+
+theorem full_ss_visible_step (E : Env) (cfg : Cfg) (s : St) (ss : SSt) (R : Round) (SR : SRound)
+    (c : Nat) (h : SsVisible (refreshFull E cfg s ss R SR).1.2 c) :
+    SsVisible ss c ∨ SsOfferedIn E SR c := by
+  unfold refreshFull at h
+  simp only [] at h
+  split at h
+  · split at h
+    · exact ss_visible_step E SR R.acceptStale ss c h
+    · exact ss_visible_step E SR R.acceptStale ss c h
+  · exact Or.inl h
+
+/-- **never_visible_incomplete_full.** The independent specification over every history of WHOLE
+rounds (index, rule lists, services, both safe-search filters; any faults anywhere; restarts in
+between): every document that a rule list, the services or a safe-search filter serves, or that
+lies in any of their cache files, was there initially or was offered completely by a server in
+some round of the history. -/
+theorem never_visible_incomplete_full (E : Env) (cfg : Cfg) (hfix : cfg.keepInvalid = true)
+    (rs : List (Round × SRound)) (init : Nat → Prop) (p : St × SSt)
+    (h0 : ∀ c, Visible p.1 c ∨ SsVisible p.2 c → init c) (c : Nat)
+    (h : Visible (runFull E cfg p rs).1 c ∨ SsVisible (runFull E cfg p rs).2 c) :
+    init c ∨ ∃ r ∈ rs, OfferedIn E cfg r.1 c ∨ SsOfferedIn E r.2 c := by
+  induction rs generalizing p init with
+  | nil => exact Or.inl (h0 c h)
+  | cons r rs ih =>
+    have hstep : ∀ c, Visible (refreshFull E cfg p.1 p.2 r.1 r.2).1.1 c ∨
+        SsVisible (refreshFull E cfg p.1 p.2 r.1 r.2).1.2 c →
+        (init c ∨ (OfferedIn E cfg r.1 c ∨ SsOfferedIn E r.2 c)) := by
+      intro c hc
+      rcases hc with hc | hc
+      · rcases full_visible_step E cfg hfix p.1 p.2 r.1 r.2 c hc with h1 | h1
+        · exact Or.inl (h0 c (Or.inl h1))
+        · exact Or.inr (Or.inl h1)
+      · rcases full_ss_visible_step E cfg p.1 p.2 r.1 r.2 c hc with h1 | h1
+        · exact Or.inl (h0 c (Or.inr h1))
+        · exact Or.inr (Or.inr h1)
+    have := ih (fun c => init c ∨ (OfferedIn E cfg r.1 c ∨ SsOfferedIn E r.2 c))
+      (refreshFull E cfg p.1 p.2 r.1 r.2).1 hstep (by simpa [runFull] using h)
+    rcases this with (h1 | h1) | ⟨r', hr', h1⟩
+    · exact Or.inl h1
+    · exact Or.inr ⟨r, by simp, h1⟩
+    · exact Or.inr ⟨r', by simp [hr'], h1⟩
+
+example : SsVisible (runFull ssEnv (cexCfg true) (cexSt, ssS) [(ssRound, ssSR (.resp 200 8 false true))]).2 8 :=
+  Or.inl (by decide)
+example : (runFull ssEnv (cexCfg true) (cexSt, ssS)
+    [(ssRound, ssSR (.resp 503 8 false true)), (ssRound, ssSR (.resp 200 8 false true))]).1.rl 7 = some 9 := by
+  decide
+
+
 end Agd.Refresh
 
 #print axioms Agd.Refresh.failed_download_keeps_previous
@@ -1313,6 +1565,15 @@ end Agd.Refresh
 #print axioms Agd.Refresh.mistyped_entries_never_refuse_index
 #print axioms Agd.Refresh.valid_entries_applied_next_to_mistyped
 #print axioms Agd.Refresh.mistyped_entry_refuses_index_counterexample
+#print axioms Agd.Refresh.fs_fault_keeps_cache_file
+#print axioms Agd.Refresh.disk_complete_under_fs_faults
+#print axioms Agd.Refresh.concurrent_writers_disk_complete
+#print axioms Agd.Refresh.concurrent_kill_point_file
+#print axioms Agd.Refresh.shared_temp_name_mixes_documents_counterexample
+#print axioms Agd.Refresh.rl_visible_step
+#print axioms Agd.Refresh.ss_visible_step
+#print axioms Agd.Refresh.full_ss_visible_step
+#print axioms Agd.Refresh.never_visible_incomplete_full
 #print axioms Agd.Tie.TrC13.translation_complete
 #print axioms Agd.Tie.TrC13.cleanup_or_replace
 #print axioms Agd.Tie.TrC13.replace_only_after_complete_download
